@@ -105,12 +105,22 @@ def main(tier):
         chk.add(evaluations=8)
         if 'fails=0' not in out:
             chk.violation('swap-helpers|%s' % ('be' if be else 'le'), {'kind': 'config', 'out': out}, 'DEFINE_SWAP helpers wrong: ' + out[:200])
+    # the mutex-based big-endian RMW / compare-exchange path under the controlled scheduler: two threads, same cell, every interleaving of
+    # the lock/unlock operations; the linearizability oracle works on the big-endian image of the cell, so "the RMW writes the swapped
+    # result" is also checked under contention (checks/c16_sched.py, big-endian cases only)
+    import c16_sched, mclib
+    try:
+        parts['big-endian RMW path under the scheduler'] = c16_sched.sched_part(chk, tier, be_only=True)
+    except mclib.MachineryError as e:
+        print('MACHINERY-ERROR C19: %s' % e)
+        return 2
     chk.cov['parts'] = parts
     chk.cov['rule'] = ('forced configuration -DWASM_ENDIAN=WASM_BIG_ENDIAN on the little-endian host vs. the reference in big-endian-image mode: all 23 plain load/store '
                        'flavours x 5 static offsets x 18 base addresses (aligned and odd) x values, all 14 atomic loads/stores and 49 RMW/cmpxchg flavours (mutex based path), '
                        'bulk operations and data segments followed by loads of every width (BFS over histories); after every store/RMW ALL memory bytes are compared, so '
                        'mixed-width sequences (store w1, load w2 at overlapping addresses) are covered; the same cases with the switch off; the forced-BE translator must '
-                       'read f32/f64 immediates with exactly one byte reversal and leave integer immediates alone; the swap_* helpers reverse exactly their width')
+                       'read f32/f64 immediates with exactly one byte reversal and leave integer immediates alone; the swap_* helpers reverse exactly their width; '
+                       'the mutex-based RMW path additionally under the controlled scheduler (2 threads, same cell, all interleavings, linearizability on the big-endian image)')
     chk.sample({'case': 'i64.store32 offset=1 at base 0xfffd, then i32.load16_s at 0xffff', 'mode': 'forced big endian'})
     chk.assumptions += ['real big-endian hardware is not available: the endianness detection #if chain and the non-builtin swap macros are not exercised']
     return chk.finish()
